@@ -37,7 +37,7 @@ ASSUMPTIONS = [
     "'a broken server is never asked again' is scoped to one candidate name; the back-off sleep may overshoot the lifetime by at most 2 s",
     "dns.resolver.time / dns.asyncresolver.time are a virtual clock; responses are rendered to wire and parsed back before they are returned",
 ]
-REQUIRED = ["mon.resolve_name", "mon.sync_vs_reference", "mon.async_vs_sync", "mon.log_invariants", "mon.cache_contents", "mon.exhaustive_scripts"]
+REQUIRED = ["mon.do53_nameserver_twins", "mon.resolve_name", "mon.sync_vs_reference", "mon.async_vs_sync", "mon.log_invariants", "mon.cache_contents", "mon.exhaustive_scripts"]
 BUDGET = {"quick": 45.0, "thorough": 480.0}
 
 KINDS = ["answer", "nodata", "nxdomain", "servfail", "refused", "timeout", "malformed", "truncated", "yxdomain", "oserror", "eoferror", "notimp", "chain-too-long", "answer-for-nxdomain", "cname1", "cname3", "cname-nodata", "cname-nxdomain"]
@@ -654,8 +654,69 @@ def normalize(result):
     return result
 
 
+def check_do53_twins(ctx, rng):
+    """the shipped plain-DNS nameserver class (what an address string in resolver.nameservers becomes): its synchronous and
+    asynchronous query methods hand the transport layer the same request, destination and options -- which datagrams are
+    skipped, whether truncation raises, how records are grouped -- so that both resolvers see the same outcome for the same
+    traffic.  The transport functions are replaced by recorders for the duration of the call."""
+    import dns.asyncquery
+    import dns.nameserver
+    import dns.query
+
+    ctx.count("evaluations")
+    ctx.count("mon.do53_nameserver_twins")
+    addr = rng.choice(("192.0.2.53", "2001:db8::53"))
+    port = rng.choice((53, 5353))
+    ns = dns.nameserver.Do53Nameserver(addr, port)
+    q = dns.message.make_query("twin.example.", rng.choice(("A", "TXT")))
+    canned = dns.message.make_response(q)
+    calls = {"sync": [], "async": []}
+
+    def rec(which, transport):
+        def f(request, where, **kw):
+            kw.pop("backend", None)
+            calls[which].append((transport, where, request is q, tuple(sorted((k, repr(v)) for k, v in kw.items()))))
+            return canned
+        return f
+
+    def arec(transport):
+        inner = rec("async", transport)
+
+        async def f(request, where, **kw):
+            return inner(request, where, **kw)
+        return f
+
+    timeout = rng.choice((0.5, 2.0))
+    source, source_port = rng.choice((None, "192.0.2.1")), rng.choice((0, 4000))
+    max_size = rng.random() < 0.5
+    one, trailing = rng.random() < 0.5, rng.random() < 0.5
+    case = {"kind": "do53-twins", "max_size": max_size, "one_rr_per_rrset": one, "ignore_trailing": trailing}
+    try:
+        with swap_attr(dns.query, "udp", rec("sync", "udp")), swap_attr(dns.query, "tcp", rec("sync", "tcp")), swap_attr(dns.asyncquery, "udp", arec("udp")), swap_attr(dns.asyncquery, "tcp", arec("tcp")):
+            ns.query(q, timeout, source, source_port, max_size, one_rr_per_rrset=one, ignore_trailing=trailing)
+            loop = asyncio.new_event_loop()
+            try:
+                loop.run_until_complete(ns.async_query(q, timeout, source, source_port, max_size, None, one_rr_per_rrset=one, ignore_trailing=trailing))
+            finally:
+                loop.close()
+    except Exception as e:
+        ctx.violation("do53-nameserver-query-raised:" + core.exc_sig(e), repr(e), case)
+        return
+    ctx.seen(("do53-twins", max_size, one, trailing))
+    if calls["sync"] != calls["async"]:
+        a, b = calls["sync"], calls["async"]
+        diff = sorted(set(a[0][3]) ^ set(b[0][3])) if a and b and a[0][:3] == b[0][:3] else (a, b)
+        ctx.violation(f"sync-and-async-nameserver-use-the-transport-differently:{'tcp' if max_size else 'udp'}", f"options that differ: {diff}", case)
+        return
+    want_transport = "tcp" if max_size else "udp"
+    if [c[0] for c in calls["sync"]] != [want_transport]:
+        ctx.violation("do53-nameserver-wrong-transport", f"max_size={max_size}: {[c[0] for c in calls['sync']]}", case)
+
+
 def run(spec, ctx):
     rng = ctx.rng
+    for i in range(60):
+        check_do53_twins(ctx, rng)
     for i in range(spec["n"]):
         if ctx.expired(0.6):
             break
